@@ -333,6 +333,7 @@ class NPD(object):
             raise Exception("The self reported packet length does not match the length of the buffer supplied")
 
         remain_buf = _payload
+        self.segments = []
         while remain_buf != b"":
             if self.datatype in NPD.NPD_DT:
                 segment = NPD.NPD_DT[self.datatype]()
